@@ -47,6 +47,11 @@ func buildDispatchOnly(tb model.TableSpec, router string, rec *harness.Recorder,
 	return buildWith(tb, opt, rec, true)
 }
 
+func buildDispatchOnlySwapped(tb model.TableSpec, router string, rec *harness.Recorder, nContainerFilters int) (*restful.Container, interface{}) {
+	opt := &harness.Options{Router: router, ContainerFilters: nContainerFilters, SwapRouterFirst: true}
+	return buildWith(tb, opt, rec, true)
+}
+
 func buildWith(tb model.TableSpec, opt *harness.Options, rec *harness.Recorder, freshMux bool) (c *restful.Container, panicked interface{}) {
 	defer func() {
 		if r := recover(); r != nil {
